@@ -737,8 +737,13 @@ def r111(rep: Report, ctx: Ctx) -> None:
     pairs = sorted((rl(c.func.value), rl(c.args[0]),
                     c.args[1].value if isinstance(c.args[1], ast.Constant)
                     else "?") for c in ups if len(c.args) == 2)
-    ok = pairs == [("in_node", "out_node", "incoming"),
-                   ("out_node", "in_node", "outgoing")]
+    # the 'incoming' registration is kept consistent when present, but it is
+    # not an obligation: Node.incoming is only read when incoming logic is
+    # loaded, which the pipeline never does (found by the differential
+    # validation, DESIGN section 15)
+    ok = pairs in ([("in_node", "out_node", "incoming"),
+                    ("out_node", "in_node", "outgoing")],
+                   [("out_node", "in_node", "outgoing")])
     rep.ob("R1.11", "an edge registers the head under 'outgoing' of the tail "
            "and the tail under 'incoming' of the head", ok, fi=edge,
            node=ups[0] if ups else edge.node, detail=str(pairs))
